@@ -127,6 +127,28 @@ pub fn subst_oracle<E: Engine>(_ctx: &RunCtx, spec: &PromSpec, log: &mut CaseLog
             ));
         }
     }
+    // the same question with the genuine (statement, proof) pair as a neighbour in one batch, in both orders: a batch is accepted
+    // only if each member is, so a batch holding the substituted pair must be refused unless the promise vectors are equal
+    let genuine = RangeStatement::init(t.params.clone(), t.commitments.clone(), t.promises.clone(), t.seed).map_err(|e| format!("{:?}", e))?;
+    for act in [VerifyAction::VerifyOnly, VerifyAction::RecoverAndVerify] {
+        for subst_first in [false, true] {
+            let sts = if subst_first { [st.clone(), genuine.clone()] } else { [genuine.clone(), st.clone()] };
+            let r = guarded(|| E::verify(&mut [t.transcript(), t.transcript()], &sts, &[proof.clone(), proof.clone()], act))?;
+            if equal != r.is_ok() {
+                return Err(format!(
+                    "batch of the genuine pair and the same proof under substituted promise {:?} (made under {:?}, position {}; substituted pair {}) is {} in {} (value-wise equal: {})",
+                    new,
+                    old,
+                    j,
+                    if subst_first { "first" } else { "second" },
+                    if r.is_ok() { "ACCEPTED" } else { "rejected" },
+                    action_name(act),
+                    equal
+                ));
+            }
+        }
+    }
+    log.extra_evals += 4;
     let kind = format!("{:?}", spec.subst).split('(').next().unwrap().to_string();
     log.label(format!("engine={}", E::NAME));
     log.label(format!("subst:{}", kind));
@@ -290,7 +312,7 @@ pub fn def() -> PropertyDef {
         level: "exploration",
         rule: "Three generators. (1) substituted promise: an honest proof made under promise vector p (classes None, 0, v, v-1, v/3, uniform) is \
                verified under a vector differing in one generated position j by {0, None, p+-1, v, v+1, 2^bits-1, 2^bits, u64::MAX, uniform}, in \
-               VerifyOnly and RecoverAndVerify; oracle: Ok <=> value-wise equal (None == 0), and any promise >= 2^bits is refused. (2) prover \
+               VerifyOnly and RecoverAndVerify; oracle: Ok <=> value-wise equal (None == 0), and any promise >= 2^bits is refused; the same verdict is required of the two-member batches [genuine pair, same proof under the substituted vector] in both orders and both modes. (2) prover \
                boundary at each position of an aggregate with all other positions valid: promise == value proves and verifies, promise == value+1 \
                is refused, the reference prover's proof of value - promise = -1 is rejected, and a promise of 2^bits is refused even when the reference prover supplies a proof for which the relation holds (value' = 2^bits + small) and the other promises of the aggregate fit. (3) engine F garbage proofs with a nonzero promise \
                at EVERY position: the h-coordinate (and every other coordinate) of the verifier's final equation equals weight x the reference \
